@@ -54,6 +54,7 @@ def check_models(repo, chk, tier):
             raise AnalysisError("anchor vanished: %s.%s" % (ckey, method))
         h = {BWF + "get_bprime_coeff": coeff_hook}
         h.update(hooks or {})
+        h.setdefault("allow_attr_store", True)
         tr = Translator(repo, hooks=h, max_depth=8)
         so = SelfObj(cls, dict({"get_mass": PyFunc(lambda: m0), "get_width": PyFunc(lambda: g0), "decay": []}, **attrs))
         try:
@@ -65,7 +66,9 @@ def check_models(repo, chk, tier):
     for L in Ls:
         Li = sp.Integer(L)
         common = {"bw_l": Li, "d": d, "width_norm": False}
-        fn, v = evaluate(CORE + "::Particle", "get_amp", dict(common, running_width=True), [data, data_c])
+        # the decay the resonance belongs to allows l = 1, 2 (an explicit bw_l, 0 included, must be used as given)
+        dec_tok = SelfObj(None, {"get_l_list": PyFunc(lambda: [sp.Integer(1), sp.Integer(2)])})
+        fn, v = evaluate(CORE + "::Particle", "get_amp", dict(common, running_width=True, decay=[dec_tok]), [data, data_c])
         oblige("model default/BWR (L=%d): get_amp == 1/(m0^2-m^2-i m0 Gamma(m))" % L, v, bwr_ref(L), fn.key, "BWR:L=%d" % L, CORE)
         fn, v = evaluate(BASE + "::ParticleBWR2", "get_amp", dict(common, running_width=True), [data, data_c])
         oblige("model BWR2 (L=%d): get_amp == 1/(m0^2-m^2-i m0 Gamma(m))" % L, v, bwr_ref(L), fn.key, "BWR2:L=%d" % L, BASE)
